@@ -58,7 +58,10 @@ def gen(ctx):
         H = rng.choice([1, 1, 2])
         hist = [[[rng.randrange(k) for _ in range(C)] for _ in range(R)] for _ in range(H)]
         rule = rng.choice(PERMS + PERMS + ["probe:%d" % k, "counter:%d" % k])
-        yield dict(kind="blk2", hist=hist, b=[b0, b1], T=rng.randint(1, 5), rule=rule, dtype=rng.choice(["int32", "int64", "uint8"]))
+        c = dict(kind="blk2", hist=hist, b=[b0, b1], T=rng.randint(1, 5), rule=rule, dtype=rng.choice(["int32", "int64", "uint8"]))
+        if rng.random() < 0.3:
+            c["inplace"] = 1
+        yield c
 
 
 def line(c):
@@ -76,7 +79,7 @@ def calls_str(log):
 def run(c, rule=None):
     import cellpylib as cpl
     ca = np.array(c["hist"], dtype=c["dtype"])
-    rule = rule or BRule(c["rule"])
+    rule = rule or BRule(c["rule"], inplace=bool(c.get("inplace")))
     try:
         if c["kind"] == "blk1":
             res = cpl.evolve_block(ca, block_size=c["b"], timesteps=c["T"], apply_rule=rule)
